@@ -456,14 +456,19 @@ func c16Run(c *Ctx) {
 				if a.Desc == "" {
 					continue
 				}
-				found := false
+				found := 0
 				for _, ln := range lines {
 					if strings.HasPrefix(strings.TrimLeft(ln, " "), a.DisplayName()+":") && strings.Contains(ln, strings.Fields(a.Desc)[0]) {
-						found = true
+						found++
 					}
 				}
-				if !found {
+				if found == 0 {
 					c.Violate("missing:help:positional", "described positional %q of command %q has no row", a.DisplayName(), cm.Name)
+					return
+				}
+				if found > 1 {
+					// (names carry unique ids: a second row means the argument is shown under another command as well)
+					c.Violate("extra:help:positional-row", "described positional %q of command %q is listed %d times", a.DisplayName(), cm.Name, found)
 					return
 				}
 			}
